@@ -21,6 +21,7 @@ The canonical documentation for the orchestrator lifecycle and SER integration l
 
 from __future__ import annotations
 
+import copy
 import time
 import uuid
 from abc import ABC, abstractmethod
@@ -151,6 +152,11 @@ class SemantivaOrchestrator(ABC):
             node_uuids = [n["node_uuid"] for n in canonical.get("nodes", [])]
             upstream_map = compute_upstream_map(canonical)
             run_id = f"run-{uuid.uuid4().hex}"
+
+            # The canonical spec is enriched below for emission only. Work on a
+            # private copy so the caller's spec (reused by Pipeline on every run)
+            # is never modified and pipeline_id stays the same from run to run.
+            canonical = copy.deepcopy(canonical)
 
             # Resolve processor classes without instantiating nodes
             proc_classes = self._resolve_processor_classes(canonical, resolved_spec)
